@@ -126,7 +126,15 @@ func (c *fRegistryImpl) dispatch(opid uint64, frame []byte) error {
 	c.mu.RUnlock()
 	verifYield("dispatch.send", opid)
 
-	resultC <- frame
-	verifYield("dispatch.sent", opid)
+	// Never block the (single) inbound path on one request: the channel of a
+	// request holds one response; a further frame for the same op id (a
+	// duplicate, or one arriving while the request is returning) is dropped.
+	select {
+	case resultC <- frame:
+		verifYield("dispatch.sent", opid)
+	default:
+		logger().Warnf("frugal: dropping frame for op id %d, a response is already pending", opid)
+		verifYield("dispatch.dropped", opid)
+	}
 	return nil
 }
